@@ -21,7 +21,13 @@ pub const SOURCE_NAMES: [&str; 5] = ["zlib", "zlibng", "libdeflate", "miniz", "g
 pub fn compressor_stream(r: &mut Rng, max_plain: usize, family: Option<usize>) -> Stream {
     loop {
         let n = plain::size(r, max_plain);
-        let (kind, p) = plain::make(r, n);
+        let (kind, mut p) = plain::make(r, n);
+        if r.chance(1, 8) {
+            // files that open with a short run of one byte (zeroed header, title rule)
+            let b = *r.pick(&[0u8, 0, 0xff, b'=', b' ']);
+            let l = 4 + r.usize_below(60);
+            p.splice(0..0, std::iter::repeat(b).take(l));
+        }
         if let Some((rec, d)) = comp::random_compress(r, &p, family) {
             return Stream {
                 source: rec.family,
